@@ -1,9 +1,10 @@
 (* C04 - Circuit editing calls have their documented effect on program order.
-   Statements only; proofs in circuit/CThm.v.  `tl c q` is the timeline of qudit q
+   Statements only; proofs in circuit/CThm.v, circuit/CThm2.v (remaining editors) and
+   circuit/CFoldThm.v (fold, partial).  `tl c q` is the timeline of qudit q
    (its operations, cycle after cycle); `tlc` the same on a list of cycles. *)
 From Coq Require Import List ZArith.
 Import ListNotations.
-From BQ Require Import lib.Trace circuit.CModel circuit.CThm.
+From BQ Require Import lib.Trace circuit.CModel circuit.CThm circuit.CThm2 circuit.CFold circuit.CFoldThm.
 
 (* iteration order restricted to a qudit is that qudit's timeline *)
 Theorem C04_iteration_is_timeline : forall cs q,
@@ -74,13 +75,224 @@ Theorem C04_same_unitary :
   denote M mul one_ den c1 = denote M mul one_ den c2.
 Proof. exact same_timelines_same_denotation. Qed.
 
-(* The full statement of the property for the whole editing alphabet (replace,
-   batch calls, qudit edits, fold/unfold ...) is not yet proved in Coq; for those
-   calls the tie is the step-by-step correspondence of coq/circuit/CModel.v with the
-   implementation plus the list-of-cycles reference oracle (harness). *)
+(* ---- replace ---------------------------------------------------------------------------- *)
+(* in place (same set of qudits): the new operation takes the old one's place on each of
+   them; nothing else changes (the old timeline is the same with [old] for [o]: cell_tl) *)
+Theorem C04_replace_inplace : forall c ci qi o old q',
+  let i := normZ ci (ncyc c) in let q := normZ qi (nq c) in
+  valid_op c o = true -> point_in_range c ci qi = true -> amo (cycle_at c i) ->
+  get_cell c i q = Some old -> seteqb (o_loc old) (o_loc o) = true ->
+  let r := replace c (ci, qi) o in
+  snd r = OkU /\ nq (fst r) = nq c /\ rads (fst r) = rads c /\ ncyc (fst r) = ncyc c /\
+  tl (fst r) q' = tlc (firstn i (cycles c)) q'
+                  ++ (if touches q' old then [o] else filter (touches q') (cycle_at c i))
+                  ++ tlc (skipn (S i) (cycles c)) q'.
+Proof. exact replace_inplace_tl. Qed.
+
+Theorem C04_timeline_at_cell : forall c i q old q',
+  i < ncyc c -> amo (cycle_at c i) -> get_cell c i q = Some old ->
+  tl c q' = tlc (firstn i (cycles c)) q'
+            ++ (if touches q' old then [old] else filter (touches q') (cycle_at c i))
+            ++ tlc (skipn (S i) (cycles c)) q'.
+Proof. exact cell_tl. Qed.
+
+(* different qudits (pop + insert): the old operation is gone and the new one sits, on each
+   of its qudits, after the cycles before the old cycle index and before what is left of
+   that cycle and everything later - also when the old operation was alone in the last cycle *)
+Theorem C04_replace_move : forall c ci qi o old q',
+  let i := normZ ci (ncyc c) in let q := normZ qi (nq c) in
+  valid_op c o = true -> point_in_range c ci qi = true ->
+  get_cell c i q = Some old -> disjointb (o_loc old) (o_loc o) = false -> seteqb (o_loc old) (o_loc o) = false ->
+  let r := replace c (ci, qi) o in
+  snd r = OkU /\
+  tl (fst r) q' = tlc (firstn i (cycles c)) q' ++ one q' o
+                  ++ filter (touches q') (filter (fun x => negb (touches q x)) (cycle_at c i))
+                  ++ tlc (skipn (S i) (cycles c)) q'.
+Proof. exact replace_move_tl. Qed.
+
+(* ---- several removals, highest cycle first (the core of batch_pop and pop_qudit) ----------- *)
+Theorem C04_removes : forall R c q,
+  desc R -> named c R -> distinct_reqs c R ->
+  tl (removes R c) q = tlc (filt R 0 (cycles c)) q.
+Proof. exact removes_tl. Qed.
+
+(* batch_pop: exactly the operations named by the (normalised) points disappear - `filt npts`
+   drops from cycle i the operations touching a qudit q with (i, q) among the points *)
+Theorem C04_batch_pop : forall c pts q,
+  Inv c -> forallb (fun p => point_in_range c (fst p) (snd p)) pts = true ->
+  (exists p o, In p pts /\ get_cell c (normZ (fst p) (ncyc c)) (normZ (snd p) (nq c)) = Some o) ->
+  let npts := map (fun p => (normZ (fst p) (ncyc c), normZ (snd p) (nq c))) pts in
+  exists sub, snd (batch_pop c pts) = OkC sub /\
+  tl (fst (batch_pop c pts)) q = tlc (filt npts 0 (cycles c)) q.
+Proof. exact batch_pop_removed_tl. Qed.
+
+(* the returned circuit holds the popped operations `bp_ops` (cycle after cycle, in iteration
+   order) on the used qudits renumbered in increasing order *)
+Theorem C04_batch_pop_returned_partial : forall c pts q sub,
+  snd (batch_pop c pts) = OkC sub ->
+  let ops := bp_ops c pts in let qs := used_qudits ops in
+  In q qs ->
+  nq sub = length qs /\
+  tl sub (index_of q qs) = map (relab (fun a => index_of a qs)) (filter (touches q) ops).
+Proof. exact batch_pop_returned_partial. Qed.
+(* still to be proved: `bp_ops` lists, on every qudit, exactly the removed operations in cycle order *)
+Definition C04_batch_pop_returned_full : Prop := forall c pts q,
+  Inv c -> forallb (fun p => point_in_range c (fst p) (snd p)) pts = true ->
+  let npts := map (fun p => (normZ (fst p) (ncyc c), normZ (snd p) (nq c))) pts in
+  filter (touches q) (bp_ops c pts)
+  = flat_map (fun i => filter (touches q) (filter (hit npts i) (cycle_at c i))) (seq 0 (ncyc c)).
+
+(* ---- replace_with_circuit / unfold ------------------------------------------------------------ *)
+Theorem C04_replace_with_circuit : forall c ci qi sub old q',
+  let i := normZ ci (ncyc c) in let q := normZ qi (nq c) in
+  point_in_range c ci qi = true -> get_cell c i q = Some old ->
+  nq sub = length (o_loc old) ->
+  nat_list_eqb (rads sub) (map (fun a => nth a (rads c) 0) (o_loc old)) = true ->
+  NoDup (o_loc old) -> Forall amo (cycles sub) -> all_qudits (fun a => a < nq sub) (cycles sub) ->
+  (forall o, In o (iter_ops (cycles sub)) -> valid_op c (map_loc (o_loc old) o) = true) ->
+  let r := replace_with_circuit c (ci, qi) sub false in
+  snd r = OkU /\
+  tl (fst r) q' = tlc (firstn i (cycles c)) q'
+                  ++ filter (touches q') (map (map_loc (o_loc old)) (iter_ops (cycles sub)))
+                  ++ filter (touches q') (filter (fun x => negb (touches q x)) (cycle_at c i))
+                  ++ tlc (skipn (S i) (cycles c)) q'.
+Proof. exact replace_with_circuit_tl. Qed.
+
+(* unfold: the block's place is taken by its inner operations, parameters distributed by
+   set_params_cycles, relabelled through the block's location, in the inner circuit's order *)
+Theorem C04_unfold : forall c ci qi blk q',
+  let i := normZ ci (ncyc c) in let q := normZ qi (nq c) in
+  point_in_range c ci qi = true -> get_cell c i q = Some blk -> o_isblk blk = true ->
+  length (o_rad blk) = length (o_loc blk) ->
+  nat_list_eqb (o_rad blk) (map (fun a => nth a (rads c) 0) (o_loc blk)) = true ->
+  NoDup (o_loc blk) -> Forall amo (o_sub blk) -> all_qudits (fun a => a < length (o_rad blk)) (o_sub blk) ->
+  let inner := iter_ops (set_params_cycles (o_sub blk) (o_ps blk)) in
+  (forall o, In o inner -> valid_op c (map_loc (o_loc blk) o) = true) ->
+  let r := unfold c (ci, qi) in
+  snd r = OkU /\
+  tl (fst r) q' = tlc (firstn i (cycles c)) q'
+                  ++ filter (touches q') (map (map_loc (o_loc blk)) inner)
+                  ++ filter (touches q') (filter (fun x => negb (touches q x)) (cycle_at c i))
+                  ++ tlc (skipn (S i) (cycles c)) q'.
+Proof. exact unfold_tl. Qed.
+
+(* set_params_cycles keeps the structure: cycle by cycle the same operations up to parameters *)
+Theorem C04_set_params_structure : forall cs ps,
+  Forall2 (Forall2 same_but_ps) (set_params_cycles cs ps) (map fwd_cycle cs).
+Proof. exact spc_same. Qed.
+
+(* ---- qudit editors ------------------------------------------------------------------------------ *)
+Theorem C04_append_qudit : forall c radix q,
+  2 <= radix ->
+  let r := append_qudit c radix in
+  snd r = OkU /\ nq (fst r) = S (nq c) /\ rads (fst r) = rads c ++ [radix] /\ tl (fst r) q = tl c q.
+Proof. exact append_qudit_tl. Qed.
+
+Theorem C04_insert_qudit_past_end : forall c qi radix,
+  (Z.of_nat (nq c) <= qi)%Z -> insert_qudit c qi radix = append_qudit c radix.
+Proof. exact insert_qudit_past_end. Qed.
+
+(* old qudit q becomes shift_up k q, its timeline relabelled; the new qudit k is idle *)
+Theorem C04_insert_qudit : forall c qi radix q,
+  2 <= radix -> (qi < Z.of_nat (nq c))%Z ->
+  let k := qudit_index c qi in
+  let r := insert_qudit c qi radix in
+  snd r = OkU /\ nq (fst r) = S (nq c) /\ rads (fst r) = insert_at k radix (rads c) /\
+  tl (fst r) (shift_up k q) = map (relab (shift_up k)) (tl c q) /\ tl (fst r) k = [].
+Proof. exact insert_qudit_tl. Qed.
+
+(* pop_qudit k: operations touching k disappear; qudit q <> k becomes shift_down k q *)
+Theorem C04_pop_qudit : forall c qi q,
+  Inv c -> in_rangeZ qi (nq c) = true -> nq c <> 1 ->
+  let k := normZ qi (nq c) in
+  q <> k ->
+  let r := pop_qudit c qi in
+  snd r = OkU /\ nq (fst r) = nq c - 1 /\ rads (fst r) = remove_at k (rads c) /\
+  tl (fst r) (shift_down k q) = map (relab (shift_down k)) (filter (fun o => negb (touches k o)) (tl c q)).
+Proof. exact pop_qudit_tl. Qed.
+
+(* renumber_qudits with a permutation: qudit q becomes perm[q]; radixes move along *)
+Theorem C04_renumber : forall c perm q,
+  length perm = nq c -> nodupn perm = true -> forallb (fun a => Nat.ltb a (nq c)) perm = true ->
+  in_range c -> q < nq c ->
+  let r := renumber_qudits c perm in
+  snd r = OkU /\ nq (fst r) = nq c /\
+  tl (fst r) (nth q perm 0) = map (relab (fun a => nth a perm 0)) (tl c q) /\
+  nth (nth q perm 0) (rads (fst r)) 0 = nth q (rads c) 0.
+Proof. exact renumber_tl. Qed.
+
+(* ---- concatenation ---------------------------------------------------------------------------------- *)
+(* extend: the operations up to the first rejected one are appended in order *)
+Theorem C04_extend : forall ops c q,
+  let r := seq_ops append c ops in
+  tl (fst r) q = tl c q ++ filter (touches q) (valid_prefix c ops)
+  /\ nq (fst r) = nq c /\ rads (fst r) = rads c
+  /\ (valid_prefix c ops = ops -> snd r = OkU)
+  /\ (valid_prefix c ops <> ops -> snd r = Err ValueError).
+Proof. exact extend_tl. Qed.
+
+Theorem C04_append_circuit : forall c sub location q,
+  nq sub = length location ->
+  let ops := map (map_loc location) (iter_ops (cycles sub)) in
+  let r := append_circuit c sub location false in
+  tl (fst r) q = tl c q ++ filter (touches q) (valid_prefix c ops)
+  /\ nq (fst r) = nq c /\ rads (fst r) = rads c
+  /\ (valid_prefix c ops = ops -> snd r = OkN (-1)).
+Proof. exact append_circuit_tl. Qed.
+
+Theorem C04_append_circuit_as_gate : forall c sub location q,
+  nq sub = length location ->
+  let r := append_circuit c sub location true in
+  tl (fst r) q = tl c q ++ (if valid_op c (block_of sub location) then one q (block_of sub location) else []).
+Proof. exact append_circuit_gate_tl. Qed.
+
+Theorem C04_iadd : forall a b q,
+  nq b = nq a -> Forall amo (cycles b) -> all_qudits (fun x => x < nq a) (cycles b) ->
+  (forall o, In o (iter_ops (cycles b)) -> valid_op a o = true) ->
+  let r := c_iadd a b in
+  snd r = OkU /\ tl (fst r) q = tl a q ++ tl b q.
+Proof. exact iadd_tl. Qed.
+
+Theorem C04_mul : forall a n q,
+  Forall amo (cycles a) -> in_range a ->
+  (forall o, In o (iter_ops (cycles a)) -> valid_op a o = true) ->
+  tl (c_mul a n) q = repeat_app n (tl a q).
+Proof. exact mul_tl. Qed.
+
+Theorem C04_clear : forall c q, tl (clear c) q = [] /\ nq (clear c) = nq c /\ rads (clear c) = rads c.
+Proof. exact clear_tl. Qed.
+
+(* ---- fold (model: circuit/CFold.v; partial) ---------------------------------------------------------- *)
+(* moving an operation to an earlier cycle across cells that are idle on its qudits (what one
+   round of straighten does) changes no timeline *)
+Theorem C04_fold_move_partial : forall c old new o q,
+  Forall amo (cycles c) -> new < old -> old < ncyc c ->
+  get_cell c old (hd0 (o_loc o)) = Some o ->
+  (forall q', In q' (o_loc o) -> forall j, new <= j < old -> filter (touches q') (cycle_at c j) = []) ->
+  tl (move_op c old new o) q = tl c q.
+Proof. exact move_op_tl_partial. Qed.
+
+Theorem C04_fold_straighten_round_partial : forall c r sq old new,
+  Forall amo (cycles c) -> new < old -> old < ncyc c ->
+  (forall q o, In q sq -> round_cond r old q = true -> get_cell c old q = Some o -> crosses_idle c old new o) ->
+  let c' := fst (fst (straighten_round c r sq old new)) in
+  Forall amo (cycles c') /\ ncyc c' = ncyc c /\ (forall q, tl c' q = tl c q).
+Proof. exact straighten_round_tl_partial. Qed.
+
+Theorem C04_fold_idle_cycles_partial : forall c i q,
+  tl (insert_cycle c i) q = tl c q /\ (cycle_at c i = [] -> tl (fst (pop_cycle c i)) q = tl c q).
+Proof. intros c i q. split; [exact (insert_cycle_tl_partial c i q)|exact (pop_idle_cycle_tl_partial c i q)]. Qed.
+
+(* the full statement for fold (whenever it returns, the recursively unfolded timelines are
+   unchanged) is not proved; correspondence + oracle cover it *)
+Definition C04_fold_full : Prop := fold_keeps_unfolded_timelines_full.
+
+(* What is still correspondence-only in C04: batch_replace (a loop of `replace` with index
+   compensation), c_add / c_imul / unfold_all (loops of the proved append), insert_circuit
+   as_gate, and fold as a whole. *)
 Definition C04_full : Prop :=
-  forall (ks : list call) n rs q, exists ref_timeline : list op,
-    tl (fold_left do_call ks (mkC n rs [])) q = ref_timeline.
+  C04_fold_full /\ C04_batch_pop_returned_full /\
+  forall c pts ops q, exists ref_timeline : list op, tl (fst (batch_replace c pts ops)) q = ref_timeline.
 
 (* non-vacuity: a concrete 3-call history on 2 qubits; CX(0,1); X(0) inserted at 0; X(1) appended *)
 Example C04_nonvacuous :
@@ -90,3 +302,26 @@ Example C04_nonvacuous :
   let c := fold_left do_call [CAppend cx; CInsert 0 x0; CAppend x1] (mkC 2 [2;2] []) in
   tl c 0 = [x0; cx] /\ tl c 1 = [cx; x1] /\ valid_op (mkC 2 [2;2] []) cx = true.
 Proof. vm_compute. repeat split. Qed.
+
+(* non-vacuity of the new groups: replace (both branches), unfold of a block, pop_qudit,
+   renumber and batch_pop on a 3-qudit circuit *)
+Example C04_nonvacuous_editors :
+  let cx01 := Op false 4 [0;1] [] [2;2] [] in
+  let cx10 := Op false 4 [1;0] [] [2;2] [] in
+  let cx12 := Op false 4 [1;2] [] [2;2] [] in
+  let x0 := Op false 1 [0] [] [2] [] in
+  let rz := Op false 2 [0] [7%Z] [2] [] in
+  let blk := Op true 0 [2;0] [5%Z] [2;2] [[Op false 2 [1] [0%Z] [2] []]; [Op false 4 [0;1] [] [2;2] []]] in
+  let c := mkC 3 [2;2;2] [[x0]; [cx01]; [blk]] in
+  Inv c
+  /\ cycles (fst (replace c (1, 0)%Z cx10)) = [[x0]; [cx10]; [blk]]
+  /\ cycles (fst (replace c (1, 1)%Z cx12)) = [[x0]; [cx12]; [blk]]
+  /\ tl (fst (unfold c (2, 0)%Z)) 0 = [x0; cx01; Op false 2 [0] [5%Z] [2] []; Op false 4 [2;0] [] [2;2] []]
+  /\ tl (fst (pop_qudit c 1%Z)) 1 = [Op true 0 [1;0] [5%Z] [2;2] [[Op false 2 [1] [0%Z] [2] []]; [Op false 4 [0;1] [] [2;2] []]]]
+  /\ tl (fst (renumber_qudits c [2;0;1])) 2 = map (relab (fun a => nth a [2;0;1] 0)) (tl c 0)
+  /\ cycles (fst (batch_pop c [(0, 0); (2, 2)]%Z)) = [[cx01]].
+Proof. split; [|vm_compute; repeat split].
+  unfold Inv; cbn [cycles].
+  repeat (apply Forall_cons; [split; [discriminate|intros q; cbn;
+            repeat match goal with |- context[if ?b then _ else _] => destruct b end; cbn; auto]|]).
+  apply Forall_nil. Qed.
